@@ -28,7 +28,9 @@
 (* Bug re-creates realistic wrong designs; TLC must reject each of them.     *)
 (***************************************************************************)
 EXTENDS Integers, Sequences, FiniteSets, TLC, Json, CSV, IOUtils
-CONSTANTS Family, MaxOps, Codes, Bug, Emit
+CONSTANTS Family, MaxOps, Codes, Bug, Emit,
+          Wide       \* TRUE: every fault at both ends of the page and every set-up with and without the meaningless
+                     \* entry bits (cache, accessed, dirty, PAT, global, available); FALSE: a deterministic mix of them
 P == INSTANCE CoWProps
 
 NP == 4
@@ -55,8 +57,13 @@ VARIABLES pg,        \* page -> [up, fl, f]   (the active address space as a har
           zextra,    \* writable mappings of the zero frame outside the universe (temporary page, regions, other spaces)
           dead,      \* the kernel panicked
           nops, script,
+          xbits,     \* mask of meaningless bits the environment put into page 1's entry (flags / upper families)
           s, mismatch
-vars == <<pg, content, nextf, zextra, dead, nops, script, s, mismatch>>
+vars == <<pg, content, nextf, zextra, dead, nops, script, xbits, s, mismatch>>
+\* offsets of the fault address inside its page, and masks of meaningless entry bits
+Offsets == <<0, 1, 2048, 4095>>
+OffsFor(k) == IF Wide THEN {0, 4095} ELSE {Offsets[(k % 4) + 1]}
+XFor(k) == IF Wide THEN {0, 2047} ELSE {IF k % 2 = 0 THEN 0 ELSE 2047}
 
 Rec(up, fl, f) == [up |-> up, fl |-> fl, f |-> f]
 \* number of upper levels the walk passes (leading present entries)
@@ -91,29 +98,34 @@ SInit(pgs) == [inited |-> TRUE, st |-> St(pgs, Content0, {})]
 
 Init ==
   /\ \/ /\ Family = "flags"
-        /\ \E fl \in AllFlagSets, up \in UpPatterns :
+        /\ \E fl \in AllFlagSets, up \in UpPatterns, x \in {0, 2047} :
+             /\ x \in XFor(Code(fl) + up[1] + up[2] + up[3])
+             /\ xbits = x
              \* a page that is to be writable does not sit on the zero frame (the environment never creates the violation itself)
              /\ pg = [Pg0 EXCEPT ![1] = Rec(PatUp(up), fl, IF fl[2] = 1 THEN 3 ELSE Z)]
              \* the set-up the Go replay performs to get there
-             /\ script = (IF fl[2] = 1 THEN <<<<"mapnew", 1, 19>>>> ELSE <<>>) \o <<<<"poke", 1, Code(fl)>>>>
+             /\ script = (IF fl[2] = 1 THEN <<<<"mapnew", 1, 19>>>> ELSE <<>>) \o <<<<"poke", 1, Code(fl), x>>>>
                           \o (CASE up = <<1, 1, 1>> -> <<>> [] up = <<1, 1, 0>> -> <<<<"pokeup", 1, 2, 0>>>>
                                 [] up = <<1, 0, 0>> -> <<<<"pokeup", 1, 1, 0>>>> [] OTHER -> <<<<"pokeup", 1, 0, 0>>>>)
      \/ /\ Family = "upper"
         \* (i) every upper level in turn carries every combination of RW / user / bit 9 / no-execute while present,
         \*     under every last-level flag subset
-        /\ \/ \E l \in 1..3, b \in Up4, fl \in AllFlagSets :
+        /\ \/ \E l \in 1..3, b \in Up4, fl \in AllFlagSets, x \in {0, 2047} :
+                /\ x \in (IF Wide THEN {0, 2047} ELSE {IF (Code(fl) + l + b[1] + b[3]) % 2 = 0 THEN 0 ELSE 2047})
+                /\ xbits = x
                 /\ pg = [Pg0 EXCEPT ![1] = Rec([UpStd EXCEPT ![l] = UEnt(1, b, l)], fl, IF fl[2] = 1 THEN 3 ELSE Z)]
                 /\ script = (IF fl[2] = 1 THEN <<<<"mapnew", 1, 19>>>> ELSE <<>>) \o <<<<"poke", 1, Code(fl)>>>>
-                             \o <<<<"pokeupf", 1, l - 1, 1 + 2 * b[1] + 4 * b[2] + 8 * b[3] + 16 * b[4]>>>>
+                             \o <<<<"pokeupf", 1, l - 1, 1 + 2 * b[1] + 4 * b[2] + 8 * b[3] + 16 * b[4], x>>>>
            \* (ii) the walk stops at level l (entry absent, any other bits) below a present level l-1 with any bits
            \/ \E l \in 1..3, b2 \in Up4, b1 \in Up4 :
                 /\ l = 1 => b1 = <<1, 0, 0, 0>>
+                /\ xbits = 0
                 /\ pg = [Pg0 EXCEPT ![1] = Rec([k \in 1..3 |-> IF k = l THEN UEnt(0, b2, l) ELSE IF k = l - 1 THEN UEnt(1, b1, k) ELSE UStd(k)],
                                                 LazyFl, Z)]
                 /\ script = <<<<"pokeupf", 1, l - 1, 2 * b2[1] + 4 * b2[2] + 8 * b2[3] + 16 * b2[4]>>>>
                              \o (IF l > 1 THEN <<<<"pokeupf", 1, l - 2, 1 + 2 * b1[1] + 4 * b1[2] + 8 * b1[3] + 16 * b1[4]>>>> ELSE <<>>)
      \/ /\ Family = "seq"
-        /\ pg = Pg0
+        /\ pg = Pg0 /\ xbits = 0
         /\ script = <<>>
   /\ content = Content0 /\ nextf = 4 /\ zextra = {} /\ dead = FALSE /\ nops = 0
   /\ s = SInit(pg) /\ mismatch = <<>>
@@ -125,7 +137,7 @@ Judge(e) ==
   IN /\ s' = m.s
      /\ mismatch' = IF S = {} THEN <<>> ELSE LET j == CHOOSE j \in S : \A k \in S : j <= k IN <<nops + 1, m.cs[j][1], m.cs[j][3]>>
 
-Step(op) == nops' = nops + 1 /\ script' = Append(script, op)
+Step(op) == nops' = nops + 1 /\ script' = Append(script, op) /\ xbits' = xbits
 
 (* ---- the mapping interface ------------------------------------------------------------------ *)
 Guarded(f, fl) ==
@@ -171,7 +183,7 @@ RegionZero(k, n, fl) ==
 
 (* ---- the page-fault handler ------------------------------------------------------------------- *)
 \* fail: 0 none, 1 the frame allocation fails, 2 the temporary mapping fails
-Fault(p, code, fail) ==
+Fault(p, code, fail, off) ==
   /\ ~dead /\ nops < MaxOps
   /\ LET o    == Seen(pg[p])
          \* Lookup: the walk stops at the first absent level; the entry is used only if present
@@ -198,11 +210,11 @@ Fault(p, code, fail) ==
      IN /\ pg' = pg2 /\ content' = ct2
         /\ nextf' = IF cow /\ ~allocFails THEN nextf + 1 ELSE nextf
         /\ dead' = ~resume
-        /\ Judge([k |-> "fault", pg |-> p, off |-> 0, code |-> code, pre |-> o, afail |-> IF fail = 1 THEN 1 ELSE 0, tfail |-> IF fail = 2 THEN 1 ELSE 0,
+        /\ Judge([k |-> "fault", pg |-> p, off |-> off, code |-> code, pre |-> o, afail |-> IF fail = 1 THEN 1 ELSE 0, tfail |-> IF fail = 2 THEN 1 ELSE 0,
                   nfail |-> IF allocFails THEN 1 ELSE 0, tfailed |-> IF tmpFails THEN 1 ELSE 0,
                   alloc |-> IF cow /\ ~allocFails THEN <<copy>> ELSE <<>>, flush |-> fl2,
                   res |-> IF resume THEN "resume" ELSE "panic", st |-> St(pg2, ct2, zextra)])
-  /\ Step(<<"fault", p, 0, code, IF fail = 1 THEN 1 ELSE 0, IF fail = 2 THEN 1 ELSE 0>>)
+  /\ Step(<<"fault", p, off, code, IF fail = 1 THEN 1 ELSE 0, IF fail = 2 THEN 1 ELSE 0>>)
   /\ UNCHANGED zextra
 
 Gpf ==
@@ -224,8 +236,8 @@ Store(p) ==
 SeqFlags == {<<1, 1, 0, 0, 0>>, <<1, 0, 0, 1, 1>>, <<1, 1, 0, 1, 1>>}
 Next ==
   /\ mismatch = <<>>
-  /\ \/ (Family \in {"flags", "upper"} /\ \E c \in Codes, fail \in 0..2 : Fault(1, c, fail))
-     \/ (Family = "seq" /\ \E p \in 1..NP, fail \in 0..2 : Fault(p, 2, fail))
+  /\ \/ (Family \in {"flags", "upper"} /\ \E c \in Codes, fail \in 0..2 : \E off \in OffsFor(c + fail + Code(pg[1].fl)) : Fault(1, c, fail, off))
+     \/ (Family = "seq" /\ \E p \in 1..NP, fail \in 0..2 : \E off \in OffsFor(p + fail + nops) : Fault(p, 2, fail, off))
      \/ (Family = "seq" /\ \E p \in {1, 4}, fl \in SeqFlags, via \in 0..2 : MapZero(p, fl, via))
      \/ (Family = "seq" /\ TmpZero)
      \/ (Family = "seq" /\ \E k \in {0, 1}, fl \in {<<1, 1, 0, 0, 0>>, <<1, 0, 0, 0, 1>>} : RegionZero(k, 2, fl))
@@ -239,5 +251,5 @@ NoMismatch == mismatch = <<>>
 \* (set-up of page 1 included) followed by the call itself.  Used as an always-true ACTION_CONSTRAINT.
 EmitEdge == Emit => CSVWrite("%1$s", <<ToJson([script |-> script'])>>, IOEnv.CASES)
 
-View == <<pg, content, nextf, zextra, dead, nops, s, mismatch>>
+View == <<pg, content, nextf, zextra, dead, nops, xbits, s, mismatch>>
 ====
